@@ -50,4 +50,19 @@ func init() {
 		},
 		Outside: []string{"more words/runs than the stated parameter", "run bounds >= 2^62 (overflow of max+1)"},
 	}
+
+	ra := "internal/tools/regexAnalysis"
+	registry["C18"] = CheckSpec{Property: "C18",
+		Harnesses: []HarnessSpec{
+			{Pkg: ra, Func: "ZZ_C18_Analysis", Quick: &Tier{Params: map[string]int{"level": 0, "maxlen": 5}, Samples: 60},
+				Thorough: &Tier{Params: map[string]int{"level": 1, "maxlen": 6}, Samples: 300},
+				Bounds: "expressions of the bounded grammar ZZExprs(level) (enumerated), every byte string of length 0..maxlen symbolic"},
+		},
+		Assumptions: []string{
+			"oracle = fork-free Thompson simulation (harness, ~120 lines) of the same compiled syntax.Prog; validated on every run against rsc.io/binaryregexp on the solver's models (native replay, label simulation-agrees-with-binaryregexp)",
+			"exactness (min/max attained) is asserted only for expressions without empty-width assertions (the analysis walks assertions as no-ops by design)",
+			"multi-value returns are evaluated in gc's order (calls first, variable reads last), see engine getLate",
+		},
+		Outside: []string{"strings longer than maxlen", "expressions outside the enumerated grammar", "counted repetition above 3", "runes above 0xFF"},
+	}
 }
